@@ -301,6 +301,11 @@ def documents(draw, max_subnets=4, max_size=3, max_hosts=7, extras=True,
         for b in addrs:
             if b[0] == t[0]:
                 deny[b] = sorted(set(deny.get(b, [])) | {x})
+    if _coin(draw, 0.06):
+        # nobody runs a process and nothing escalates (both allowed): the process list is then only a declaration
+        privescs = {}
+        for cfg in hostcfg.values():
+            cfg["processes"] = []
     if _coin(draw, 0.25):
         # the file may list the hosts in any order
         order = draw(st.permutations(addrs))
@@ -478,8 +483,13 @@ def dump(doc, path, flow=None, rotate=0):
         keys = list(obj)
         k = rotate % len(keys)
         obj = {key: obj[key] for key in keys[k:] + keys[:k]}
-    with open(path, "w") as f:
-        yaml.safe_dump(obj, f, sort_keys=False, default_flow_style=flow)
+    # non-ASCII names: half of the time written as they are (UTF-8 file), else as YAML escapes
+    text = yaml.safe_dump(obj, sort_keys=False, default_flow_style=flow)
+    if not text.isascii() or "\\x" in text or "\\u" in text:
+        if (len(text) + len(obj.get("os", []))) % 2:
+            text = yaml.safe_dump(obj, sort_keys=False, default_flow_style=flow, allow_unicode=True)
+    with open(path, "w", encoding="utf-8") as f:
+        f.write(text)
 
 
 _TMP = {}
